@@ -281,6 +281,18 @@ def run(ctx):
     n_bin = sum(1 for o in obs if o["key"].startswith("C03.prec/gen/"))
     if n_bin < 28:
         obs.append(ob("C03.floor/gen-arms", False, where, "only %d operator arms analysed (floor 28 = 22 plain binary + 6 unary)" % n_bin))
+    # sub-expression traversal and operator adjacency are shared with C05 / C02 (same code, same rules)
+    from rules.c05 import check_iterators
+    o5, _m, _i = check_iterators(ctx)
+    for x in o5:
+        x = dict(x)
+        x["key"] = x["key"].replace("C05.children", "C03.children").replace("C05.", "C03.iter.")
+        obs.append(x)
+    from rules.c02 import adjacency_rule
+    for x in adjacency_rule(ctx):
+        x = dict(x)
+        x["key"] = x["key"].replace("C02.adjacent", "C03.adjacent").replace("C02.", "C03.adj.")
+        obs.append(x)
     return obs
 
 
